@@ -686,6 +686,447 @@ def stream_kauri(chk, i, rng):
     chk.count(("kauri", fam, n, d, Kmax, kernel, ng) if ng >= 1 else None)
 
 
+# ================================================================== round-3 streams: representations, extreme scales, GEMINI call path
+import copy as _copy
+
+
+def flat_numbers(obj):
+    """Every number of a nested result (arrays, lists, tuples, scalars) as one float vector."""
+    if obj is None:
+        return np.zeros(0)
+    if isinstance(obj, (list, tuple)):
+        parts = [flat_numbers(o) for o in obj]
+        return np.concatenate(parts) if parts else np.zeros(0)
+    return np.asarray(obj, dtype=float).ravel()
+
+
+def same_numbers(a, b, tol=1e-10, atol=0.0):
+    fa, fb = flat_numbers(a), flat_numbers(b)
+    if fa.shape != fb.shape:
+        return False
+    if fa.size == 0:
+        return True
+    if not (np.all(np.isfinite(fa)) and np.all(np.isfinite(fb))):
+        return bool(np.array_equal(fa, fb, equal_nan=True))
+    return bool(np.all(np.abs(fa - fb) <= atol + tol * (1.0 + np.maximum(np.abs(fa), np.abs(fb)))))
+
+
+def observe(chk, oid, what):
+    """A misbehaviour of the UNCHANGED tree at a corner outside the recorded findings: reported to the coordinator, counted
+    and written to the evidence notes, not failed (the coordinator decides between fix / known finding / out of scope)."""
+    chk.dist[f"observation:{oid}"] += 1
+    msg = f"observation {oid}: {what}"
+    if not any(nt.startswith(f"observation {oid}:") for nt in chk.notes):
+        chk.notes.append(msg)
+
+
+class Snap:
+    """Bit-for-bit snapshot of an argument (and of the buffer a view looks into) taken before a call."""
+
+    def __init__(self, obj):
+        self.obj = obj
+        if isinstance(obj, np.ndarray):
+            self.base = obj.base if isinstance(obj.base, np.ndarray) else None
+            self.state = (np.ascontiguousarray(obj).tobytes(), obj.dtype, obj.shape, obj.strides, obj.flags.writeable,
+                          None if self.base is None else self.base.tobytes())
+        else:
+            self.state = _copy.deepcopy(obj)
+
+    def unchanged(self):
+        o = self.obj
+        if isinstance(o, np.ndarray):
+            return self.state == (np.ascontiguousarray(o).tobytes(), o.dtype, o.shape, o.strides, o.flags.writeable,
+                                  None if self.base is None else self.base.tobytes())
+        return self.state == o and type(self.state) is type(o)
+
+
+def representations(M, rng, lists=True):
+    """The same values in other representations: (tag, object).  M is a float64 C-contiguous matrix."""
+    out = []
+    if np.all(M == np.round(M)) and np.abs(M).max() < 2 ** 31:
+        out += [("int64", M.astype(np.int64)), ("int32", M.astype(np.int32))]
+        if np.all((M == 0) | (M == 1)):
+            out.append(("bool", M.astype(bool)))
+    if np.array_equal(M.astype(np.float32).astype(np.float64), M):
+        out.append(("float32", M.astype(np.float32)))
+    out.append(("fortran", np.asfortranarray(M.copy())))
+    big = rng.normal(size=(2 * M.shape[0], M.shape[1]))
+    big[::2] = M
+    out.append(("view-rows", big[::2]))
+    rev = np.ascontiguousarray(M[:, ::-1])
+    out.append(("view-cols", rev[:, ::-1]))
+    out.append(("transposed-copy", np.ascontiguousarray(M.T).T))
+    ro = M.copy()
+    ro.setflags(write=False)
+    out.append(("read-only", ro))
+    if lists:
+        out += [("list", M.tolist()), ("tuple", tuple(tuple(r) for r in M.tolist()))]
+    return out
+
+
+PRECOMPUTABLE = {"LinearMMD": "kernel", "MLPMMD": "kernel", "SparseLinearMMD": "kernel", "SparseMLPMMD": "kernel", "CategoricalMMD": "kernel",
+                 "LinearWasserstein": "metric", "MLPWasserstein": "metric", "CategoricalWasserstein": "metric", "Kauri": "kernel"}
+REPR_FAMILIES = ["grid", "K=1", "K=n", "one-feature", "const-col", "dup-col", "eighths", "x1024", "x2^-10"]
+
+
+def repr_data(rng, fam):
+    n, d, K = int(rng.integers(6, 10)), int(rng.integers(2, 4)), int(rng.integers(2, 4))
+    if fam == "one-feature":
+        d = 1
+    X = rng.integers(-4, 5, size=(n, d)).astype(float) + np.repeat(np.arange(3), n)[:n].reshape(-1, 1) * 6
+    if fam == "eighths":
+        X = X + rng.integers(0, 8, size=(n, d)) / 8.0
+    if fam == "x1024":
+        X = X * 1024.0
+    if fam == "x2^-10":
+        X = X / 1024.0
+    if fam == "const-col":
+        X[:, int(rng.integers(0, d))] = 3.0
+    if fam == "dup-col" and d >= 2:
+        X[:, 1] = X[:, 0]
+    if fam == "K=1":
+        K = 1
+    if fam == "K=n":
+        X, K = X[:5], 5
+    return np.ascontiguousarray(X, dtype=float), K
+
+
+def run_entry_points(name, est_factory, X, y, with_path):
+    """fit, fit_predict, predict, predict_proba, score (and path) on fresh clones.  Returns (results, errors): one failing
+    entry point does not mask the others."""
+    res, err = {}, {}
+    try:
+        e = est_factory()
+        e.fit(X, y)
+        res["labels"] = np.asarray(e.labels_).tolist()
+        if name == "Kauri":
+            res["params"] = [list(e.tree_.gains), [t for t in e.tree_.thresholds if t is not None], [f for f in e.tree_.features if f is not None]]
+        else:
+            res["params"] = [np.array(w, dtype=float) for w in e._get_weights()]
+    except Exception as ex:  # noqa
+        err["fit"] = ex
+        e = None
+    if e is not None:
+        calls = [("predict", lambda: np.asarray(e.predict(X)).tolist()), ("score", lambda: float(e.score(X, y)))]
+        if name != "Kauri":
+            calls.insert(0, ("proba", lambda: np.asarray(e.predict_proba(X), dtype=float)))
+        for part, fn in calls:
+            try:
+                res[part] = fn()
+            except Exception as ex:  # noqa
+                err[part] = ex
+    try:
+        res["fit_predict"] = np.asarray(est_factory().fit_predict(X, y)).tolist()
+    except Exception as ex:  # noqa
+        err["fit_predict"] = ex
+    if with_path:
+        try:
+            p = est_factory()
+            out = p.path(X, y, alpha_multiplier=4.0, min_features=1, max_patience=1)
+            res["path"] = [out[0], out[1], out[2], out[3], out[4]]
+            res["path-weights"] = [np.array(w, dtype=float) for w in p._get_weights()]
+            res["path-score"] = float(p.score(X, y))
+        except Exception as ex:  # noqa
+            err["path"] = ex
+    return res, err
+
+
+def stream_repr(chk, i, rng):
+    """Same values, other representation (dtype, memory layout, read-only, lists) -> same finite results through fit,
+    fit_predict, predict, predict_proba, score and path; the caller's arrays are unchanged bit for bit."""
+    names = list(impl.ALL_ESTIMATORS)
+    name = names[i % len(names)]
+    fam = REPR_FAMILIES[(i // len(names) + i) % len(REPR_FAMILIES)]
+    X, K = repr_data(rng, fam)
+    n = len(X)
+    pre = PRECOMPUTABLE.get(name) if (i // len(names)) % 2 == 1 else None
+    seed = int(rng.integers(0, 10 ** 6))
+    kw = dict(n_clusters=K, max_clusters=K, max_iter=2, random_state=seed, batch_size=[None, n, n + 3, 2][i % 4], alpha=1.0)
+    if name in impl.GENERIC_GEMINI:
+        kw["gemini"] = GEN_NAMES[(i // len(names) * 5 + i) % len(GEN_NAMES)]
+    if "MLP" in name:
+        kw["n_hidden_dim"] = 3
+    if name == "Douglas":
+        kw["n_cuts"] = 1
+    A = None
+    if pre is not None:
+        kw[pre] = "precomputed"
+        B = rng.integers(-3, 4, size=(n, n)).astype(float)
+        A = B + B.T if pre == "kernel" else np.abs(B + B.T)
+        if pre == "metric":
+            np.fill_diagonal(A, 0.0)
+        if name == "Kauri":
+            A = B @ B.T
+    factory = lambda: impl.make(name, **kw)  # noqa: E731
+    with_path = name in impl.SPARSE and X.shape[1] >= 2
+    desc = {k: v for k, v in kw.items() if k in factory().get_params()}
+    replay = {"estimator": name, "family": fam, "params": desc, "X": X.tolist(), "y": None if A is None else A.tolist()}
+    chk.dist[f"repr:family={fam}"] += 1
+    chk.dist["repr:precomputed" if pre else "repr:named-affinity"] += 1
+    ref, rerr = run_entry_points(name, factory, X.copy(), None if A is None else A.copy(), with_path)
+    for part, ex in rerr.items():
+        chk.fail(f"{name}:repr:{fam}:reference-{part}-raises:{type(ex).__name__}", f"{part} raised {type(ex).__name__}: {ex} on the float64 C-contiguous reference with {desc}", replay, layer="L3")
+    for part, val in ref.items():
+        if not finite(flat_numbers(val)):
+            chk.fail(f"{name}:repr:{fam}:{part}-nonfinite", f"{part} has non-finite values on the reference representation with {desc}", replay, layer="L3")
+    # an MMD whose square is zero up to rounding goes through sqrt: its score is only determined up to sqrt(rounding)
+    slack = 0.0
+    if name not in ("Kauri", "KernelRIM"):
+        g0 = factory().get_gemini()
+        if gemlib.obj_of(g0)[0] == "mmd":
+            slack = 1.0 + float(np.sqrt(np.abs(np.asarray(g0.compute_affinity(X, A), dtype=float)).max()))
+    xs = representations(X, rng)
+    ys = [(None, None)] if A is None else [("f64", A.copy())] + representations(A, rng)
+    pairs = [(tx, vx, "f64" if A is not None else None, None if A is None else A.copy()) for tx, vx in xs]
+    pairs += [("f64", X.copy(), ty, vy) for ty, vy in ys[1:]]
+    if A is not None and len(xs) and len(ys) > 1:
+        j = int(rng.integers(0, min(len(xs), len(ys) - 1)))
+        pairs.append((xs[j][0], xs[j][1], ys[1 + j][0], ys[1 + j][1]))
+    for tx, vx, ty, vy in pairs:
+        tag = tx if ty in (None, "f64") else (f"y={ty}" if tx == "f64" else f"{tx}+y={ty}")
+        f32 = "float32" in tag          # float32 inputs reach compute_affinity / the GEMINI unconverted in score(): float32 resolution
+        sx, sy = Snap(vx), Snap(vy)
+        chk.dist[f"repr:{'y' if 'y=' in tag else tag}"] += 1
+        got, gerr = run_entry_points(name, factory, vx, vy, with_path)
+        for part, ex in gerr.items():
+            if part in rerr:
+                continue
+            if part == "path" and isinstance(ex, TypeError) and ty in ("list", "tuple"):
+                observe(chk, "O1", f"{name}(kernel/metric='precomputed').path(X, y) raises TypeError ({ex}) when the affinity y is a list/tuple although "
+                                   "fit(X, y) and score(X, y) accept it (compute_val_score slices the raw y)")
+                continue
+            chk.fail(f"{name}:repr:{tag}:{part}-raises:{type(ex).__name__}", f"{part}: {type(ex).__name__}: {ex} on the {tag} representation although the float64 C-contiguous call succeeds ({fam}, {desc})", dict(replay, variant=tag), layer="L3")
+        for part in ref:
+            if part not in got:
+                continue
+            sc = part in ("score", "path-score", "path")
+            if not same_numbers(ref[part], got[part], tol=1e-5 if f32 else 1e-10, atol=(2e-3 if f32 else 1e-6) * slack if sc else 0.0):
+                chk.fail(f"{name}:repr:{tag}:{part}-differs", f"{part} on the {tag} representation differs from the float64 C-contiguous reference ({fam}, {desc})", dict(replay, variant=tag), layer="L3")
+                break
+        if not sx.unchanged():
+            chk.fail(f"{name}:repr:{tag}:X-modified", f"the caller's X ({tx}) was modified by fit/fit_predict/predict/score/path", dict(replay, variant=tag), layer="L3")
+        if vy is not None and not sy.unchanged():
+            chk.fail(f"{name}:repr:{tag}:y-modified", f"the caller's affinity ({ty}) was modified", dict(replay, variant=tag), layer="L3")
+    chk.traces += len(pairs)
+    chk.count(("repr", name, fam, pre, len(pairs)))
+    chk.sample({"stream": "repr", "estimator": name, "family": fam, "precomputed": pre, "variants": [p[0] if p[2] in (None, "f64") else p[0] + "/" + p[2] for p in pairs]})
+
+
+# ------------------------------------------------------------------ extreme scales (1e-300 .. 1e300), typed data
+EXTREME = [("f64", 1e-300), ("f64", 1e-150), ("f64", 1e-30), ("f64", 1e30), ("f64", 1e150), ("f64", 1e300), ("f64", 5e-324),
+           ("float32", 1e-30), ("float32", 1e30), ("float32", 1.0), ("int64", 1.0), ("int64", 1e15), ("int32", 1e6), ("f64-negzero", 1.0), ("f64-adjacent", 1.0), ("f64-adjacent", 1e300)]
+EXT_FAMILIES = ["plain", "K=1", "K=n", "one-feature", "const-col", "dup-col", "const+dup"]
+
+
+def affinity_legal(est, name, X, raw=False):
+    """Scales are legal while the affinity the objective needs (an sklearn / user oracle) is itself finite and its grand sum
+    does not overflow; beyond that no finite result can be expected from any implementation."""
+    from sklearn.metrics import pairwise_kernels
+    Xf = np.asarray(X) if raw else np.asarray(X, dtype=float)
+    try:
+        if name == "Kauri":
+            A = est._compute_kernel(Xf, None)
+        elif name == "KernelRIM":
+            A = pairwise_kernels(Xf, metric=est.base_kernel, **(est.base_kernel_params or {}))
+        else:
+            A = est.get_gemini().compute_affinity(Xf)
+    except Exception:  # noqa
+        return False
+    if A is None:
+        return True
+    A = np.asarray(A)
+    return finite(A) and bool(np.isfinite(np.abs(A).sum(dtype=A.dtype if A.dtype.kind == "f" else float) * len(Xf)))
+
+
+def stream_extreme(chk, i, rng):
+    names = list(impl.ALL_ESTIMATORS)
+    name = names[i % len(names)]
+    dtype, scale = EXTREME[(i // len(names) + i) % len(EXTREME)]
+    fam = EXT_FAMILIES[(i // len(names) * 3 + i) % len(EXT_FAMILIES)]
+    n, d, K = int(rng.integers(6, 11)), int(rng.integers(2, 4)), int(rng.integers(2, 4))
+    if fam == "one-feature":
+        d = 1
+    base = rng.integers(-4, 5, size=(n, d)).astype(float) + np.repeat(np.arange(3), n)[:n].reshape(-1, 1) * 6
+    if dtype.startswith("f"):
+        base = base + rng.integers(0, 8, size=(n, d)) / 8.0
+    if fam in ("const-col", "const+dup"):
+        base[:, 0] = 3.0
+    if fam in ("dup-col", "const+dup") and d >= 2:
+        base[:, d - 1] = base[:, d - 2] if d >= 3 or fam == "dup-col" else base[:, 0]
+    if fam == "K=1":
+        K = 1
+    if fam == "K=n":
+        base, K = base[:5], 5
+    X = base * scale
+    if dtype == "f64-negzero":
+        X = X - X[:1]
+        X[X == 0] = -0.0
+    if dtype == "f64-adjacent":
+        # exact ties and adjacent doubles: every second sample is one ulp above / equal to its predecessor
+        X[1::2] = np.nextafter(X[0::2][:len(X[1::2])], np.inf)
+        if len(X) > 4:
+            X[4] = X[2]
+    if dtype in ("float32", "int64", "int32"):
+        X = X.astype(dtype)
+    X = np.ascontiguousarray(X)
+    solver = ["adam", "sgd"][(i // len(names)) % 2]
+    # inclusive ends of the documented intervals: alpha = 0, batch_size = n and > n, keep_threshold = 1.0 / 0.0, min_features = d
+    kw = dict(n_clusters=K, max_clusters=K, max_iter=3, random_state=int(rng.integers(0, 10 ** 6)), solver=solver,
+              alpha=[1.0, 0.0, 100.0][(i // len(names)) % 3], batch_size=[None, len(X), 2, len(X) + 1][i % 4])
+    pargs = dict(alpha_multiplier=4.0, min_features=[1, max(1, X.shape[1] - 1), X.shape[1]][(i // len(names)) % 3],
+                 keep_threshold=[0.9, 1.0, 0.0][(i // (2 * len(names))) % 3], max_patience=1)
+    if name in impl.GENERIC_GEMINI:
+        kw["gemini"] = GEN_NAMES[(i // len(names) * 7 + i) % len(GEN_NAMES)]
+    if "MLP" in name:
+        kw["n_hidden_dim"] = 3
+    if name == "Douglas":
+        kw["n_cuts"] = 1
+    # a third of the batched models carry a must-link / cannot-link decoration, through fit, fit_predict and path alike
+    mlcl = name in impl.BATCHED + impl.NONPARAMETRIC and (i // len(names)) % 3 == 2 and len(X) >= 4
+
+    def make_est():
+        e = impl.make(name, **kw)
+        if mlcl:
+            e = impl.add_mlcl_constraint(e, [[0, 1]], [[2, 3]])
+        return e
+    est = make_est()
+    desc = {k: v for k, v in kw.items() if k in est.get_params()}
+    if mlcl:
+        desc["mlcl"] = "ml=[[0,1]] cl=[[2,3]]"
+    legal = affinity_legal(est, name, X)
+    key = f"{name}:extreme:{dtype}@{scale:g}"
+    replay = {"estimator": name, "family": fam, "dtype": dtype, "scale": scale, "params": desc, "path_args": pargs, "X": np.asarray(X, dtype=float).tolist()}
+    chk.dist[f"extreme:{dtype}@{scale:g}"] += 1
+    chk.dist[f"extreme:family={fam}"] += 1
+    if not legal:
+        chk.dist["extreme:affinity-overflows(not legal, only counted)"] += 1
+        chk.count(None)
+        return
+    snap = Snap(X)
+    with_path = name in impl.SPARSE and X.shape[1] >= 2
+    typed = X.dtype != np.float64
+    X64 = X.astype(np.float64)
+    raw_legal = affinity_legal(est, name, X, raw=True) if typed else True
+
+    def typed_calls(e, k):
+        """predict_proba / predict / score on the data as the caller holds it (float32, integers)."""
+        if not typed:
+            return
+        if name != "Kauri":
+            pt, p64 = np.asarray(e.predict_proba(X), dtype=float), np.asarray(e.predict_proba(X64), dtype=float)
+            if not finite(pt) or not same_numbers(pt, p64, tol=1e-5 if X.dtype == np.float32 else 1e-12):
+                chk.fail(k + ":typed-proba", f"predict_proba on the {X.dtype} data is not finite or differs from the float64 copy of the same values", replay, layer="L3")
+        if not np.array_equal(np.asarray(e.predict(X)), np.asarray(e.predict(X64))):
+            chk.fail(k + ":typed-predict", f"predict on the {X.dtype} data differs from the float64 copy of the same values", replay, layer="L3")
+        st, s64 = float(e.score(X)), float(e.score(X64))
+        if not np.isfinite(st):
+            if raw_legal:
+                chk.fail(k + ":typed-score-nonfinite", f"score on the {X.dtype} data is {st!r} (float64 copy: {s64!r}) although the affinity is finite in {X.dtype}", replay, layer="L3")
+            else:
+                observe(chk, "O2", f"score(X) with {X.dtype} X is {st!r} where fit(X) is finite and score(X.astype(float64)) = {s64!r}: score hands the raw X to the "
+                                   f"affinity, which overflows in {X.dtype} (first seen: {name}, scale {scale:g})")
+        elif X.dtype.kind in "iu" and not same_numbers(st, s64, tol=1e-12):
+            chk.fail(k + ":typed-score", f"score on the {X.dtype} data ({st!r}) differs from the float64 copy ({s64!r})", replay, layer="L3")
+    try:
+        est.fit(X)
+        ok = check_fitted(chk, key, est, name, X64, None, replay)
+        if ok:
+            typed_calls(est, key)
+        lab2 = np.asarray(make_est().fit_predict(X))
+        if ok and not np.array_equal(lab2, est.labels_):
+            chk.fail(key + ":fit_predict-differs", "fit_predict returns other labels than fit(...).labels_ with the same random_state", replay, layer="L3")
+        if typed and ok:
+            e64 = make_est().fit(X64)
+            same = np.array_equal(e64.labels_, est.labels_) and (name == "Kauri" or same_numbers([np.asarray(w) for w in e64._get_weights()], [np.asarray(w) for w in est._get_weights()], tol=1e-12))
+            if not same:
+                chk.fail(key + ":typed-fit-differs", f"fit on the {X.dtype} data learns other parameters / labels than on the float64 copy of the same values", replay, layer="L3")
+        if with_path:
+            p = make_est()
+            out = p.path(X, **pargs)
+            if not finite(flat_numbers(list(out))):
+                if typed and not raw_legal:
+                    observe(chk, "O2", f"path(X) with {X.dtype} X records non-finite validation scores (raw X handed to the affinity)")
+                else:
+                    chk.fail(key + ":path-history-nonfinite", "the path result holds non-finite values", replay, layer="L3")
+            if check_fitted(chk, key + ":path", p, name, X64, None, replay):
+                typed_calls(p, key + ":path")
+    except Exception as e:  # noqa
+        chk.fail(key + f":raises:{type(e).__name__}", f"{type(e).__name__}: {e} on legal data ({fam}, finite affinity) with {desc}", replay, layer="L3")
+    if not snap.unchanged():
+        chk.fail(key + ":X-modified", "the caller's X was modified", replay, layer="L3")
+    chk.traces += 1
+    chk.count(("extreme", name, dtype, scale, fam, solver))
+
+
+# ------------------------------------------------------------------ GEMINI public call path on other representations / sizes 1
+def stream_gemini_repr(chk, i, rng):
+    gl = gemlib.gemini_list()
+    label, fac = gl[i % len(gl)]
+    g = fac()
+    obj, ovo = gemlib.obj_of(g)
+    shape = ["onehot", "K=1", "n=1", "one-per-cluster", "eighths"][(i // len(gl) + i) % 5]
+    n, K = int(rng.integers(2, 7)), int(rng.integers(2, 5))
+    if shape == "K=1":
+        K = 1
+    if shape == "n=1":
+        n = 1
+    if shape == "one-per-cluster":
+        n = K
+    if shape == "eighths":
+        K = int(rng.choice([2, 4, 8]))
+        cnt = rng.multinomial(8, np.ones(K) / K, size=n)
+        P = cnt / 8.0
+    elif shape == "one-per-cluster":
+        P = np.eye(K)[rng.permutation(K)]
+    else:
+        P = np.eye(K)[rng.integers(0, K, size=n)]
+    P = np.ascontiguousarray(P, dtype=float)
+    A = None
+    if obj in ("mmd", "ws"):
+        B = rng.integers(-3, 4, size=(n, n)).astype(float)
+        A = B @ B.T if obj == "mmd" else np.abs(B + B.T)
+        if obj == "ws":
+            np.fill_diagonal(A, 0.0)
+    key = f"{type(g).__name__}({'ovo' if ovo else 'ova'}):repr"
+    replay = {"gemini": label, "shape": shape, "P": P.tolist(), "A": None if A is None else A.tolist()}
+    try:
+        s_ref = float(np.asarray(g(P.copy(), None if A is None else A.copy())))
+        s2, g_ref = g(P.copy(), None if A is None else A.copy(), return_grad=True)
+    except Exception as e:  # noqa
+        chk.fail(key + f":reference-raises:{type(e).__name__}", f"{label}(P, A) raised {type(e).__name__}: {e} ({shape})", replay, layer="L3")
+        chk.count(None)
+        return
+    g_ref = np.asarray(g_ref, dtype=float)
+    if not (np.isfinite(s_ref) and finite(g_ref)) or g_ref.shape != P.shape:
+        chk.fail(key + f":{shape}:nonfinite", f"{label}(P, A): score {s_ref!r}, gradient shape {g_ref.shape} / finite {finite(g_ref)}", replay, layer="L3")
+    ps = representations(P, rng, lists=False)
+    As = [] if A is None else representations(A, rng, lists=False)
+    pairs = [(t, v, "f64", None if A is None else A.copy()) for t, v in ps] + [("f64", P.copy(), t, v) for t, v in As]
+    for tp, vp, ta, va in pairs:
+        tag = tp if ta == "f64" else f"A={ta}"
+        sp, sa = Snap(vp), Snap(va)
+        chk.dist[f"gemini-repr:{tp if ta == 'f64' else 'A'}"] += 1
+        try:
+            s = float(np.asarray(g(vp, va)))
+            s3, gr = g(vp, va, return_grad=True)
+        except Exception as e:  # noqa
+            chk.fail(key + f":{tag}:raises:{type(e).__name__}", f"{label}(P, A) raised {type(e).__name__}: {e} on the {tag} representation ({shape})", dict(replay, variant=tag), layer="L3")
+            continue
+        f32 = "float32" in tag          # float32 arguments are evaluated in float32: equal at float32 resolution only
+        rt = 1e-4 if f32 else 1e-10
+        slack = (2e-3 if f32 else 1e-6) * (1.0 + float(np.sqrt(np.abs(A).max()))) if obj == "mmd" else 0.0
+        gmax = float(np.abs(g_ref).max()) if g_ref.size else 0.0
+        if not (same_numbers(s, s_ref, rt, slack) and same_numbers(float(np.asarray(s3)), s_ref, rt, slack)
+                and np.asarray(gr).shape == g_ref.shape and (same_numbers(gr, g_ref, rt, rt * gmax) or (obj == "mmd" and tie_indicator(obj, ovo, g.epsilon, P, A))
+                                                             # float32 marginals are another LP: the solver may return other (equally optimal) potentials
+                                                             or (obj == "ws" and f32 and finite(gr)))):
+            chk.fail(key + f":{tag}:differs", f"{label}(P, A) on the {tag} representation differs from the float64 C-contiguous reference ({shape}): {s!r} vs {s_ref!r}", dict(replay, variant=tag), layer="L3")
+        if not sp.unchanged() or (va is not None and not sa.unchanged()):
+            chk.fail(key + f":{tag}:argument-modified", f"{label}(P, A) modified its argument ({tag})", dict(replay, variant=tag), layer="L3")
+    chk.dist[f"gemini-repr:shape={shape}"] += 1
+    chk.count(("gemini-repr", label, shape, n, K))
+
+
 # ================================================================== main
 STREAMS = {"gemini": (stream_gemini, 26 * len(P_FAMILIES) * 4, 26 * len(P_FAMILIES) * 40),
            "softmax": (stream_softmax, 70, 1400),
@@ -694,7 +1135,10 @@ STREAMS = {"gemini": (stream_gemini, 26 * len(P_FAMILIES) * 4, 26 * len(P_FAMILI
            "krim": (stream_krim, 4, 4),
            "long": (stream_long, 17 * 4, 17 * 16),
            "path": (stream_path, 5 * len(DATA_FAMILIES), 5 * len(DATA_FAMILIES) * 10),
-           "kauri": (stream_kauri, 13 * 12, 13 * 80)}
+           "kauri": (stream_kauri, 13 * 12, 13 * 80),
+           "repr": (stream_repr, 36, 360),
+           "extreme": (stream_extreme, 18 * 7, 18 * 7 * 8),
+           "gemini-repr": (stream_gemini_repr, 52, 520)}
 
 RULE = ("stream gemini: all 13 registry names, the 6 classes with both flags and MI on saturated predictions (exactly one-hot, one cluster only, uniform, "
         "entries exactly eps / 1-eps and one ulp around them, K=1, n=1, mixed rows; eps in {1e-12..0.49}) with degenerate kernels/distances (zero, constant, duplicates, "
